@@ -63,6 +63,16 @@ def datetime_julian(repo, rep, funcs=None):
         fn = repo.func("Epoch", q)
         rep.fn("Epoch", q)
         year_param = fn.args.args[0].arg
+        # helpers introduced by a refactoring that contain stdlib date arithmetic: their call sites in fn are the sites to guard
+        from ..rules import with_new_helpers
+        helper_dates = set()
+        for h in with_new_helpers(repo, "Epoch", fn)[1:]:
+            for x in ast.walk(h):
+                if isinstance(x, ast.Call):
+                    f_ = x.func
+                    nm_ = f_.attr if isinstance(f_, ast.Attribute) else (f_.id if isinstance(f_, ast.Name) else "")
+                    if nm_ in DATE_CALLS and ("datetime" in norm_text(f_) or nm_ in ("toordinal", "timetuple", "fromordinal")):
+                        helper_dates.add(h.name)
 
         def visit(stmts, bound):
             nonlocal n
@@ -91,7 +101,8 @@ def datetime_julian(repo, rep, funcs=None):
                     f = x.func
                     name = f.attr if isinstance(f, ast.Attribute) else (f.id if isinstance(f, ast.Name) else "")
                     base = norm_text(f)
-                    if name in DATE_CALLS and ("datetime" in base or name in ("toordinal", "timetuple", "fromordinal")):
+                    delegated = name in helper_dates        # a helper split off from this function that does the date arithmetic
+                    if delegated or (name in DATE_CALLS and ("datetime" in base or name in ("toordinal", "timetuple", "fromordinal"))):
                         n += 1
                         site = "Epoch." + q
                         if bound is None or bound < 1583:
@@ -103,7 +114,7 @@ def datetime_julian(repo, rep, funcs=None):
                         else:
                             rep.ok("R-DATETIME-JULIAN", site, "%s under year >= %d" % (norm_text(x)[:40], bound), sample=(n <= 2))
         visit(fn.body, None)
-    rep.floor("stdlib date call sites in Epoch calendar helpers", n, 3)
+    rep.floor("stdlib date call sites in Epoch calendar helpers", n, len(funcs))
 
 
 def bounds(test, year, cur):
@@ -420,8 +431,9 @@ def d2_formula(repo, rep):
         calls = [x for x in ast.walk(fn) if isinstance(x, ast.Call) and norm_text(x.func) == "Epoch.is_leap"]
         if calls and all(len(c.args) == 1 and isinstance(c.args[0], ast.Name) and c.args[0].id == year_param for c in calls):
             rep.ok("R-DEP", "Epoch." + q, "leap flag of the formula branch comes from Epoch.is_leap(%s)" % year_param)
-        else:
+        elif calls:
             rep.violation("R-DEP", "Epoch." + q, "leap-flag", "the formula branch does not take its leap flag from Epoch.is_leap(year)")
+        # (no direct call: the flag is taken through a helper; its dependence on is_leap(year) is decided by R-DOY / R-LEAPK below)
         # Meeus ch.7: K = 1 for a leap year, 2 for a common year - in both directions
         names = [a.arg for a in fn.args.args]
         t = ret_term(repo, "Epoch", q, arg_terms={n: T.sym(n) for n in names})
